@@ -574,6 +574,7 @@ Case gen_rot(uint64_t seed, int tier, bool time_rotation)
   {
     Rng r2(seed ^ 0xf5a1);
     c.cfg["fsync"] = r2.pick<int64_t>({0, 0, 0, 1, 2});
+    c.cfg["notifier"] = r2.chance(1, 4) ? 1 : 0;
     c.cfg["layout"] = r2.chance(1, 5) ? 1 : 0;
     if (c.cfg["layout"] == 1)
     {
@@ -914,8 +915,18 @@ Verdict run_rot(Case const& c, std::string const& base_dir)
   auto open_sink = [&](char mode, int64_t st)
   {
     sink.reset();
+    quill::FileEventNotifier fen;
+    if (c.get("notifier", 0))
+    {
+      // user callbacks on file events; before_write hands the statement through unchanged
+      fen.before_open = [](quill::fs::path const&) {};
+      fen.after_open = [](quill::fs::path const&, FILE*) {};
+      fen.before_close = [](quill::fs::path const&, FILE*) {};
+      fen.after_close = [](quill::fs::path const&) {};
+      fen.before_write = [](std::string_view message) { return std::string{message}; };
+    }
     sink = std::make_unique<quill::RotatingFileSink>(
-      path, make_cfg(mode), quill::FileEventNotifier{},
+      path, make_cfg(mode), fen,
       std::chrono::system_clock::time_point{std::chrono::duration_cast<std::chrono::system_clock::duration>(std::chrono::nanoseconds{st})});
   };
   try
